@@ -208,6 +208,40 @@ def gen_action(rnd, decl, outs):
         return t
     ints = [k for k, v in decl.items() if v != 'bool']
     bools = [k for k, v in decl.items() if v == 'bool']
+    if rnd.random() < 0.3:
+        # piecewise, partial relations: a few input regions, each forcing its own output values; inputs outside
+        # every region have no output (the extracted functions are unconstrained there)
+        ins_i = [k for k in ints if k not in outs]
+        ins_b = [k for k in bools if k not in outs]
+        cases = []
+        for _ in range(rnd.randint(2, 3)):
+            parts = []
+            if ins_i:
+                k = rnd.choice(ins_i)
+                lo, hi = decl[k]
+                parts.append(('cmp', rnd.choice(['=', '=', '<=', '>=']), ('var', k, False), ('num', rnd.randint(lo - 1, hi + 1))))
+            if ins_b and rnd.random() < 0.5:
+                k = rnd.choice(ins_b)
+                parts.append(('bvar', k, False) if rnd.random() < 0.5 else ('not', ('bvar', k, False)))
+            for o in outs:
+                if decl[o] == 'bool':
+                    parts.append(('bvar', o, True) if rnd.random() < 0.5 else ('not', ('bvar', o, True)))
+                else:
+                    lo, hi = decl[o]
+                    rhs = ('num', rnd.randint(lo, hi)) if (rnd.random() < 0.6 or not ins_i) else \
+                        ('arith', rnd.choice(['+', '-']), ('var', rnd.choice(ins_i), False), ('num', rnd.randint(0, 2)))
+                    parts.append(('cmp', '=', ('var', o, True), rhs))
+            if not parts:
+                continue
+            c = parts[0]
+            for q_ in parts[1:]:
+                c = ('bin', 'and', c, q_)
+            cases.append(c)
+        if cases:
+            t = cases[0]
+            for c in cases[1:]:
+                t = ('bin', 'or', t, c)
+            return t
 
     def var(k):
         return ('var', k, k in outs and rnd.random() < 0.6)
